@@ -61,7 +61,7 @@ PROPS = {
     "C01": {
         "theorem_modules": ["FlacVerif.Theorems.C01", "FlacVerif.Theorems.C01Strict", "FlacVerif.Theorems.C01Wrap"],
         "streams": {"quick": [("stream", ["--cases", 400, "--max-samples", 6000]), ("kernel", ["--cases", 150]), ("stream", ["--cases", 24, "--max-samples", 9000, "--focus", "burst"])],
-                    "thorough": [("stream", ["--cases", 6000, "--max-samples", 40000]), ("kernel", ["--cases", 3000]), ("stream", ["--cases", 1000, "--max-samples", 70000, "--focus", "burst"])],
+                    "thorough": [("stream", ["--cases", 2000, "--max-samples", 24000]), ("kernel", ["--cases", 3000]), ("stream", ["--cases", 333, "--max-samples", 24000, "--focus", "burst"])],
                     "search": [("stream", ["--cases", 1500, "--max-samples", 12000])]},
         "diff_prefix": ["c01."], "oracle_fields": ["o_c01"], "class_of": stream_class, "rule": STREAM_RULE,
         "trusted_base": STREAM_TRUSTED,
@@ -70,7 +70,7 @@ PROPS = {
     "C02": {
         "theorem_modules": ["FlacVerif.Theorems.C02", "FlacVerif.Theorems.C02Gen", "FlacVerif.Theorems.C02Hdr", "FlacVerif.Theorems.C01Strict"], "uses_gen": ["tables", "headers"],
         "streams": {"quick": [("stream", ["--cases", 400, "--max-samples", 6000]), ("kernel", ["--cases", 30])],
-                    "thorough": [("stream", ["--cases", 6000, "--max-samples", 40000]), ("kernel", ["--cases", 300])],
+                    "thorough": [("stream", ["--cases", 2000, "--max-samples", 24000]), ("kernel", ["--cases", 300])],
                     "search": [("stream", ["--cases", 1500, "--max-samples", 12000])]},
         "diff_prefix": ["c02."], "oracle_fields": ["o_c01"], "class_of": stream_class, "rule": STREAM_RULE,
         "trusted_base": STREAM_TRUSTED, "assumptions": [],
@@ -78,7 +78,7 @@ PROPS = {
     "C03": {
         "theorem_modules": ["FlacVerif.Theorems.C03", "FlacVerif.Theorems.C01Strict"],
         "streams": {"quick": [("stream", ["--cases", 400, "--max-samples", 6000])],
-                    "thorough": [("stream", ["--cases", 6000, "--max-samples", 40000])],
+                    "thorough": [("stream", ["--cases", 2000, "--max-samples", 24000])],
                     "search": [("stream", ["--cases", 1500, "--max-samples", 12000])]},
         "diff_prefix": ["c03."], "oracle_fields": ["o_c03"], "class_of": stream_class, "rule": STREAM_RULE,
         "trusted_base": STREAM_TRUSTED, "assumptions": ["MD5 compression function trusted (executable, cross-checked)"],
@@ -86,7 +86,7 @@ PROPS = {
     "C04": {
         "theorem_modules": ["FlacVerif.Theorems.C04", "FlacVerif.Theorems.C01Strict"],
         "streams": {"quick": [("stream", ["--cases", 300, "--max-samples", 6000]), ("stream", ["--cases", 300, "--max-samples", 1200, "--focus", "residues"]), ("stream", ["--cases", 5, "--max-samples", 36000, "--focus", "manyframes"])],
-                    "thorough": [("stream", ["--cases", 4000, "--max-samples", 40000]), ("stream", ["--cases", 3000, "--max-samples", 2000, "--focus", "residues"]), ("stream", ["--cases", 150, "--max-samples", 80000, "--focus", "manyframes"])],
+                    "thorough": [("stream", ["--cases", 1333, "--max-samples", 24000]), ("stream", ["--cases", 3000, "--max-samples", 2000, "--focus", "residues"]), ("stream", ["--cases", 100, "--max-samples", 24000, "--focus", "manyframes"])],
                     "search": [("stream", ["--cases", 1500, "--max-samples", 2000, "--focus", "residues"])]},
         "diff_prefix": ["c04."], "oracle_fields": ["o_c04"], "class_of": stream_class,
         "rule": STREAM_RULE + "; plus a residue sweep: block sizes 32/33/64 with every input length 0..2bs (every residue of len mod bs)",
@@ -95,7 +95,7 @@ PROPS = {
     "C09": {
         "theorem_modules": ["FlacVerif.Theorems.C09", "FlacVerif.Theorems.C09Stream"],
         "streams": {"quick": [("stream", ["--cases", 250, "--max-samples", 6000]), ("stream", ["--cases", 150, "--max-samples", 9000, "--focus", "loud"]), ("stream", ["--cases", 52, "--max-samples", 9000, "--focus", "threshold"])],
-                    "thorough": [("stream", ["--cases", 4000, "--max-samples", 40000]), ("stream", ["--cases", 3000, "--max-samples", 40000, "--focus", "loud"]), ("stream", ["--cases", 520, "--max-samples", 40000, "--focus", "threshold"])],
+                    "thorough": [("stream", ["--cases", 1333, "--max-samples", 24000]), ("stream", ["--cases", 1000, "--max-samples", 24000, "--focus", "loud"]), ("stream", ["--cases", 173, "--max-samples", 24000, "--focus", "threshold"])],
                     "search": [("stream", ["--cases", 1500, "--max-samples", 9000, "--focus", "loud"])]},
         "diff_prefix": ["c09."], "oracle_fields": ["o_c09"], "class_of": stream_class,
         "rule": STREAM_RULE + "; plus a 'loud' focus (20/24-bit full-scale, alternating, heavy-tailed, loud/silent partition mixes, r=-l stereo; max_parameter in {0,1,2,8,14}). For every single-thread record the encoder's decision logic is REPLAYED in Lean (Model/Encode.lean: encodeFrame on the oracle log of hook 3) and must reproduce every frame byte for byte (field c09.functional); the direct oracle compares every frame's byte length with header + channels*(8+n*bps) bits + CRC",
@@ -131,9 +131,9 @@ KERNEL_RULE = ("kernel stream: integer kernels called through the cfg(flacenc_ve
 
 PROPS.update({
     "C08": {
-        "theorem_modules": ["FlacVerif.Theorems.C08", "FlacVerif.Theorems.C12"],
+        "theorem_modules": ["FlacVerif.Theorems.C08", "FlacVerif.Theorems.C12", "FlacVerif.Theorems.C08Gen"], "uses_gen": ["headers", "writer"],
         "streams": {"quick": [("comp", ["--cases", 120]), ("kernel", ["--cases", 30]), ("stream", ["--cases", 120, "--max-samples", 4000]), ("stream", ["--cases", 3, "--max-samples", 36000, "--focus", "manyframes"]), ("stream", ["--cases", 40, "--max-samples", 9000, "--focus", "loud"])],
-                    "thorough": [("comp", ["--cases", 3000]), ("kernel", ["--cases", 200]), ("stream", ["--cases", 3000, "--max-samples", 40000])],
+                    "thorough": [("comp", ["--cases", 3000]), ("kernel", ["--cases", 200]), ("stream", ["--cases", 1000, "--max-samples", 24000])],
                     "search": [("comp", ["--cases", 1500]), ("stream", ["--cases", 800, "--max-samples", 9000])]},
         "profiles": {"quick": ["release", "dev"], "thorough": ["release", "dev"]},
         "diff_prefix": ["c08."], "oracle_fields": ["o_c08"],
@@ -142,6 +142,7 @@ PROPS.update({
         "assumptions": ["components satisfy the well-formedness the constructors/verify establish (C18); frame and sample numbers < 2^36"],
     },
     "C12": {
+        "theorem_modules": ["FlacVerif.Theorems.C12", "FlacVerif.Theorems.C08Gen"], "uses_gen": ["headers", "writer"],
         "streams": {"quick": [("comp", ["--cases", 120])], "thorough": [("comp", ["--cases", 4000])], "search": [("comp", ["--cases", 1500])]},
         "profiles": {"quick": ["release", "dev"], "thorough": ["release", "dev"]},
         "diff_prefix": ["c12."], "oracle_fields": ["o_c12"], "rule": COMP_RULE,
@@ -152,7 +153,7 @@ PROPS.update({
     "C13": {
         "theorem_modules": ["FlacVerif.Theorems.C13", "FlacVerif.Theorems.C13Enc"],
         "streams": {"quick": [("kernel", ["--cases", 400]), ("stream", ["--cases", 150, "--max-samples", 6000])],
-                    "thorough": [("kernel", ["--cases", 6000]), ("stream", ["--cases", 3000, "--max-samples", 40000]), ("stream", ["--cases", 2000, "--max-samples", 40000, "--focus", "loud"])],
+                    "thorough": [("kernel", ["--cases", 6000]), ("stream", ["--cases", 1000, "--max-samples", 24000]), ("stream", ["--cases", 666, "--max-samples", 24000, "--focus", "loud"])],
                     "search": [("kernel", ["--cases", 3000])]},
         "diff_prefix": ["c13."], "oracle_fields": ["o_c13"],
         "rule": KERNEL_RULE + " || " + STREAM_RULE + "; the partitioning recovered from the real bytes by the Lean decoder is compared on COST with the model's search on the same residual",
@@ -161,7 +162,7 @@ PROPS.update({
     },
     "C14": {
         "streams": {"quick": [("kernel", ["--cases", 40]), ("stream", ["--cases", 250, "--max-samples", 5000])],
-                    "thorough": [("kernel", ["--cases", 400]), ("stream", ["--cases", 5000, "--max-samples", 40000])],
+                    "thorough": [("kernel", ["--cases", 400]), ("stream", ["--cases", 1666, "--max-samples", 24000])],
                     "search": [("stream", ["--cases", 1200, "--max-samples", 9000])]},
         "diff_prefix": ["c14."], "oracle_fields": ["o_c14"], "class_of": stream_class,
         "rule": KERNEL_RULE + " || " + STREAM_RULE + "; every stream record is encoded a second time with the other delivery mode (integers <-> packed bytes) and the bytes compared",
@@ -234,8 +235,8 @@ def c20_extra(run, tier, bins):
     feature set, every build encodes the same corpus (same seed), every output goes through the Lean
     model checks, and the per-case digests must agree across builds."""
     import hashlib, os, re
-    cases = 120 if tier == "quick" else 2500
-    maxs = 5000 if tier == "quick" else 40000
+    cases = 120 if tier == "quick" else 800
+    maxs = 5000 if tier == "quick" else 24000
     digests = {}
     for fs in FEATURE_SETS:
         b, err = run.build_harness("release", features=fs)
@@ -341,7 +342,7 @@ def c07_extra(run, tier, bins):
     root = os.path.dirname(os.path.dirname(os.path.abspath(__file__)))
     subprocess.run(["lake", "build", "fvdriver"], cwd=os.path.join(root, "lean"), stdout=subprocess.DEVNULL, stderr=subprocess.DEVNULL)
     try:
-        for (label, args) in [("stream@dev-burst", ["--cases", 36 if tier == "quick" else 1500, "--max-samples", 9000 if tier == "quick" else 70000, "--focus", "burst"])]:
+        for (label, args) in [("stream@dev-burst", ["--cases", 36 if tier == "quick" else 400, "--max-samples", 9000 if tier == "quick" else 36000, "--focus", "burst"])]:
             run.run_stream(b, "stream", args, label)
             rec = os.path.join(os.path.dirname(os.path.dirname(os.path.abspath(__file__))), ".cache", f"{run.pid}-{label}.rec")
             if os.path.exists(rec):
@@ -428,7 +429,7 @@ PROPS.update({
     "C15": {
         "theorem_modules": ["FlacVerif.Theorems.C15", "FlacVerif.Theorems.C02Hdr"], "uses_gen": ["headers"],
         "streams": {"quick": [("parser", ["--cases", 14, "--burst-stride", 64, "--random", 200]), ("stream", ["--cases", 150, "--max-samples", 5000]), ("comp", ["--cases", 100])],
-                    "thorough": [("parser", ["--cases", 40, "--burst-stride", 16, "--random", 2000]), ("stream", ["--cases", 4000, "--max-samples", 40000]), ("comp", ["--cases", 3000])],
+                    "thorough": [("parser", ["--cases", 40, "--burst-stride", 16, "--random", 2000]), ("stream", ["--cases", 1333, "--max-samples", 24000]), ("comp", ["--cases", 3000])],
                     "search": [("stream", ["--cases", 1000, "--max-samples", 9000])]},
         "diff_prefix": ["c15."], "oracle_fields": ["o_c15"], "class_of": default_class,
         "rule": PARSER_RULE + " || " + STREAM_RULE + "; every emitted stream is parsed by the crate's own parser (consumes all input, verifies, re-serialises to the same bytes, decodes to the input) and by the Lean mirror, whose tree must equal the one the strict RFC decoder recovered || " + COMP_RULE,
